@@ -277,6 +277,87 @@ func c01Sequential(r *core.Run, idx int, rng *rand.Rand) {
 	}
 }
 
+// c01Live: the stored request is a live record (the object the login UI works on). While the callback is reading
+// it - after its n-th accessor call - the person at the login UI switches to another account and completes the
+// login (or completes it as the same user, or only switches). A Success may only be about the user the record named
+// when it reported completion.
+func c01Live(r *core.Run, idx int, rng *rand.Rand) {
+	const wl = "live_record"
+	canary := fmt.Sprintf("MK%dl", idx)
+	sc := randScenario(rng, canary, rng.Intn(3) == 0)
+	sc.Done = false
+	e := sc.build()
+	other := randUser(rng, "U_"+canary+"o", false)
+	e.W.AddUser(other)
+	n := 1 + idx%8
+	what := []string{"switch_and_complete", "switch_and_complete", "complete", "switch_only", "complete_then_revert"}[(idx/8)%5]
+	rec := e.W.Request(sc.S.ID)
+	var firstField atomic.Value
+	rec.AfterRead = func(field string, k int) {
+		if k == 1 {
+			firstField.Store(field)
+		}
+		if k != n {
+			return
+		}
+		switch what {
+		case "switch_and_complete":
+			rec.SwitchUser(other.UserID)
+			rec.SetDone(true)
+		case "complete":
+			rec.SetDone(true)
+		case "switch_only":
+			rec.SwitchUser(other.UserID)
+		case "complete_then_revert": // completed, then the session was ended again right away
+			rec.SetDone(true)
+			rec.SetDone(false)
+		}
+	}
+	call := sc.callback(e)
+	class := fmt.Sprintf("%s|after_read=%d|%s", what, n, sc.S.Binding[strings.LastIndex(sc.S.Binding, ":")+1:])
+	ff, _ := firstField.Load().(string)
+	desc := map[string]any{"what": what, "after_accessor_call": n, "first_accessor_called": ff, "session": sc.S.ID, "bound_user_at_start": sc.U.Username, "other_user": other.Username}
+	viol := func(clause, reason string) {
+		r.Violate(core.Violation{Clause: clause, Class: class, Reason: reason, Workload: wl, Index: idx, Case: desc, Observed: call.Describe()})
+	}
+	r.Eval(class)
+	r.Seen("live_first_accessor", ff)
+	if call.Panic != "" {
+		viol("panic", call.Panic)
+		return
+	}
+	d := call.D
+	if !d.Success() {
+		r.Count("live_non_success", 1)
+		if why := leakScan(d, "U_MK"); why != "" {
+			viol("leak_in_non_success_reply", why)
+		}
+		return
+	}
+	r.Count("live_success", 1)
+	if why := completionObserved(call, []string{sc.S.ID}); why != "" {
+		viol("success_without_completion", why)
+		return
+	}
+	// the record said "done" only while it named this user:
+	want := sc.U
+	if what == "switch_and_complete" {
+		want = other
+	}
+	if d.Msg.NameID != want.Username {
+		viol("success_for_wrong_user", fmt.Sprintf("the record reported completion while it named %q; the Success assertion is about %q (the user read before the account was switched and the login completed, after accessor call %d)", want.Username, d.Msg.NameID, n))
+	}
+	foreign := "U_" + canary + "o"
+	if want == other {
+		foreign = "U_" + canary
+		if strings.Contains(strings.ReplaceAll(d.FullText(), "U_"+canary+"o", ""), foreign) {
+			viol("success_for_wrong_user", "the Success reply carries data of the user who did not complete authentication")
+		}
+	} else if strings.Contains(d.FullText(), foreign) {
+		viol("success_for_wrong_user", "the Success reply carries data of the user who did not complete authentication")
+	}
+}
+
 // ---------- concurrent histories ----------
 
 type c01Op struct {
@@ -480,15 +561,17 @@ func init() {
 		TimeoutQuick: 8 * time.Minute, TimeoutThorough: 40 * time.Minute,
 		Build: func(c *Ctx) []core.Workload {
 			r := c.Run
-			r.Rule = "(a) sequential: a stored request in state absent / pending / done (plus the late failures user unknown, user lookup error, signing-key fault, unusable algorithm, unknown application) is called back with the id in query, body, both with different values, duplicated, empty, blank, overlong, case-changed, padded, escaped twice or as a percent-sequence alias of the other session's id, by GET/POST/HEAD/PUT; a second completed session of another user lives in the same world. Online monitor on the request's tagged storage-log slice: Success => 'found and Done()=true' was observed for a supplied id; non-Success => no NameID, attribute value, signature or user canary anywhere in the fully decoded reply. (b) concurrent histories: 8 sessions created through the real SSO endpoint, 6 clients racing completions and callbacks with delays injected in storage calls; each history is checked with porcupine against a per-session register model (a callback may succeed only after completion). Distinct = (state, late failure, placement, method, binding) resp. histories."
+			r.Rule = "(a) sequential: a stored request in state absent / pending / done (plus the late failures user unknown, user lookup error, signing-key fault, unusable algorithm, unknown application) is called back with the id in query, body, both with different values, duplicated, empty, blank, overlong, case-changed, padded, escaped twice or as a percent-sequence alias of the other session's id, by GET/POST/HEAD/PUT; a second completed session of another user lives in the same world. Online monitor on the request's tagged storage-log slice: Success => 'found and Done()=true' was observed for a supplied id; non-Success => no NameID, attribute value, signature or user canary anywhere in the fully decoded reply. (b) concurrent histories: 8 sessions created through the real SSO endpoint, 6 clients racing completions and callbacks with delays injected in storage calls; each history is checked with porcupine against a per-session register model (a callback may succeed only after completion). (c) live records: the stored request is the object the login UI works on; after the n-th accessor call of the callback (n = 1..8) the login is completed, the account switched, both, or completed and ended again: a Success needs an observed Done()=true and must be about the user the record named when it said so. Distinct = (state, late failure, placement, method, binding) resp. histories."
 			r.Require("success_replies", 30)
 			r.Require("non_success_replies", 200)
 			r.Require("distinct_non_success_shapes", 2)
 			r.Require("histories_linearizable", int64(c.Pick(30, 400)))
 			r.Require("history_success_callbacks", 100)
 			r.Require("max_in_flight_callbacks", 2)
+			r.Require("live_non_success", 20)
 			return []core.Workload{
 				{Name: "callback_states", N: c.Pick(720, 7200), Fn: c01Sequential},
+				{Name: "live_record", N: c.Pick(240, 2400), Fn: c01Live},
 				{Name: "concurrent_histories", N: c.Pick(40, 500), Workers: 4, Fn: c01History},
 			}
 		},
